@@ -98,6 +98,11 @@ def run(rep, tier, seed):
         dict(name="rev_A3", maxinstr=3, maxhist=2, ops="OpsA3", points="PtsD2", seeds="SeedsB", max_replay=mr),
         dict(name="rev_A4", maxinstr=3, maxhist=2, ops="OpsA4", points="PtsD2", seeds="SeedsB", max_replay=mr),
         dict(name="rev_A5", maxinstr=3, maxhist=2, ops="OpsA5", points="PtsD2", seeds="SeedsB", max_replay=mr),
+        dict(name="rev_prod_square_reciprocal", maxinstr=3, maxhist=2, ops="OpsB1", points="PtsD2", seeds="SeedsB", max_replay=mr),
+        dict(name="rev_broadcast_assignment", maxinstr=3, maxhist=2, ops="OpsB2", points="PtsD2", seeds="SeedsB", max_replay=mr),
+        dict(name="rev_broadcast_assignment2", maxinstr=3, maxhist=2, ops="OpsB3", points="PtsD2", seeds="SeedsB", max_replay=mr),
+        dict(name="rev_broadcast_assignment_buffered", maxinstr=2, maxhist=2, ops="OpsB2", points="PtsD2", seeds="SeedsB", prefix="buffered", max_replay=mr),
+        dict(name="rev_complex_prod_square_reciprocal", module="MC_CTracer", maxinstr=2, maxhist=2, ops="OpsB1", points="PtsCx", seeds="SeedsCx", max_replay=mr),
         dict(name="rev_buffered", maxinstr=2 if q else 3, maxhist=2, ops="OpsRevP", points="PtsD2", seeds="SeedsB", prefix="buffered", max_replay=mr or 40000),
         dict(name="rev_P2", P=2, maxinstr=2, maxhist=2, ops="OpsCore", points="PtsP2D2", seeds="SeedsB", max_replay=mr),
     ]
